@@ -278,4 +278,56 @@ theorem mdarrayAt_eq (l : Lay) (t : IdxT) (hv : IdxT.Valid t) (e : Ext) (vals : 
   rw [h]
   simp [pure, Except.pure]
 
+/-- the layout of the transposed view in its own extents -/
+def flipLay : Lay → Lay
+  | .left => .right
+  | .right => .left
+
+theorem wrapU_id (t : IdxT) (hv : IdxT.Valid t) (x : Nat) (h : x ≤ t.maxV) : t.toUnsigned.wrap ((x : Nat) : Int) = ((x : Nat) : Int) :=
+  wrap_id t.toUnsigned (toUnsigned_valid t hv) _ (Int.natCast_nonneg _)
+    (by exact_mod_cast Nat.le_trans h (maxV_le_unsigned t))
+
+theorem tmap_eq (t : IdxT) (hv : IdxT.Valid t) (m : TMap) (e0 e1 : Nat) (he : ExtIs t m.nested [e1, e0])
+    (hf : Fits t [e1, e0]) (i j : Nat) (hi : i < e0) (hj : j < e1) :
+    m.mapIdx t (i : Int) (j : Int) = .ok ((offSpec (flipLay m.lay) [e0, e1] [i, j] : Nat) : Int) := by
+  have hr : InRange [e1, e0] [j, i] := ⟨hj, hi, trivial⟩
+  have h := mapIdx_eq m.lay t hv m.nested [e1, e0] he hf [j, i] hr
+  simp only [List.map_cons, List.map_nil, Int.ofNat_eq_natCast] at h
+  unfold TMap.mapIdx
+  simp only [h, bind, Except.bind, pure, Except.pure]
+  have hlt := offSpec_lt m.lay [e1, e0] [j, i] hr
+  have hp := fits_prod t [e1, e0] hf
+  rw [wrapU_id t hv _ (by omega)]
+  congr 2
+  cases m.lay with
+  | left => simp [offSpec, flipLay, offLeft, offRight, offRightAux, Nat.mul_comm]; omega
+  | right => simp [offSpec, flipLay, offLeft, offRight, offRightAux, Nat.mul_comm]; omega
+
+theorem tmap_stride_eq (t : IdxT) (hv : IdxT.Valid t) (m : TMap) (e0 e1 : Nat) (he : ExtIs t m.nested [e1, e0])
+    (hf : Fits t [e1, e0]) (r : Nat) (hr : r < 2) :
+    m.stride t r = .ok ((strideSpec (flipLay m.lay) [e0, e1] r : Nat) : Int) := by
+  have h0 := stride_eq m.lay t hv m.nested [e1, e0] he hf 0 (by simp)
+  have h1 := stride_eq m.lay t hv m.nested [e1, e0] he hf 1 (by simp)
+  have hb0 : strideSpec m.lay [e1, e0] 0 ≤ t.maxV := by
+    cases m.lay with
+    | left => have := hf 0 (by simp) 0 (by simp); simpa [strideSpec, strideLeft] using this
+    | right => have := hf 1 (by simp) 2 (by simp); simpa [strideSpec, strideRight] using this
+  have hb1 : strideSpec m.lay [e1, e0] 1 ≤ t.maxV := by
+    cases m.lay with
+    | left => have := hf 0 (by simp) 1 (by simp); simpa [strideSpec, strideLeft] using this
+    | right => have := hf 2 (by simp) 0 (by simp); simpa [strideSpec, strideRight] using this
+  unfold TMap.stride
+  have hr' : r = 0 ∨ r = 1 := by omega
+  rcases hr' with rfl | rfl
+  · rw [if_neg (by decide : ¬ (0 : Nat) = 2 - 1), if_pos (by decide : (0 : Nat) = 2 - 2)]
+    simp only [show (0 : Nat) + 1 = 1 by decide, h1, bind, Except.bind, pure, Except.pure]
+    rw [wrapU_id t hv _ hb1]
+    congr 2
+    cases m.lay <;> simp [strideSpec, flipLay, strideLeft, strideRight, prod]
+  · rw [if_pos (by decide : (1 : Nat) = 2 - 1)]
+    simp only [show (1 : Nat) - 1 = 0 by decide, h0, bind, Except.bind, pure, Except.pure]
+    rw [wrapU_id t hv _ hb0]
+    congr 2
+    cases m.lay <;> simp [strideSpec, flipLay, strideLeft, strideRight, prod]
+
 end Tetl.C19.Lemmas
